@@ -3,10 +3,6 @@ import RsModel.Model.Tree
 /-! # text projection of the composites: Concat, Combined -/
 namespace Rs
 
-theorem evsText_nil : evsText [] = [] := rfl
-
-theorem evsText_singleton (e : Ev) : evsText [e] = e.text := by simp [evsText]
-
 /-! ## ConcatSource -/
 
 theorem globalSource_notext (sm : Assoc) (s : Text) (c : Option Text) : evsText (globalSource sm s c).2.1 = [] := by
